@@ -232,6 +232,16 @@ Theorem C04_route_independent_leaf (s1 s2 : settings) up (o : opd F) (B X1 X2 : 
     cv_of (@rsq F) (@rlt F) (osize o) (nth [::] X1 j) = cv_of (@rsq F) (@rlt F) (osize o) (nth [::] X2 j).
 Proof. exact: route_independent_leaf. Qed.
 
+(* the factor route is taken under EVERY settings record (size thresholds, fast_computations, CG settings never consulted) *)
+Theorem C04_cholof_route (s : settings) up (o : opd F) : select_solve s (cls_of (DCholOf up o)) = MCholFactor.
+Proof. exact: cholof_route. Qed.
+
+(* non-vacuity of the orientation: an upper factor read as a lower one gives a different answer *)
+Example C04_factor_flag_observable :
+  let R : mat F := [:: [:: 1; 1]; [:: 0; 1]] in let b : vec F := [:: 1; 0] in
+  chol_solve RA true 2 R b <> chol_solve RA false 2 R b.
+Proof. exact: factor_flag_observable. Qed.
+
 Example C04_wf_blocks_sat : wf_blocks 2 [:: DDiag 1 [:: 1 : F]; DDiag 1 [:: 1 : F]].
 Proof. by split=> // -[|[|i]] //= _; split=> // -[|j] //= _; rewrite /Model.vget /= ltr01. Qed.
 
